@@ -172,7 +172,8 @@ def perf_spec(variant):
     if variant in ("pedal", "two", "two_rev", "stale"):
         controls = [dict(number=64, value=100, time=0.4, track=0, channel=0), dict(number=64, value=0, time=1.2, track=0, channel=0),
                     dict(number=67, value=127, time=0.1, track=0, channel=0)]
-    return dict(notes=notes, controls=controls, two=(variant in ("two", "two_rev")), rev=(variant == "two_rev"), stale=(variant == "stale"))
+    return dict(notes=notes, controls=controls, two=(variant in ("two", "two_rev", "tuple")), rev=(variant == "two_rev"), stale=(variant == "stale"),
+                bare=(variant == "tuple"))
 
 
 def build_perf(spec):
@@ -192,6 +193,9 @@ def build_perf(spec):
     if spec["two"]:
         n2 = [dict(id="q1", midi_pitch=40, note_on=0.0, note_off=1.0, velocity=30, track=0, channel=1)]
         parts.append(P.PerformedPart(n2, id="PP2", part_name="perf2"))  # (track attribute 0: after PP1 when rev)
+    if spec.get("bare"):
+        # independently built parts handed over as a plain sequence: both use track 0, nothing has renumbered them
+        return tuple(parts)
     return P.Performance(parts, id="perf")
 
 
@@ -311,6 +315,10 @@ def score_entry_points():
     EP["transpose[score]"] = lambda sc: transpose(sc, S.Interval(3, "M"))
     EP["container"] = lambda sc: [len(sc), [p.id for p in sc], sc[0].id, sc[len(sc) - 1].id, [p.id for p in list(sc)]]
     return EP
+
+
+# entry points that also accept a plain sequence of PerformedPart objects (or only look at its first element)
+PERF_SEQUENCE_EPS = ("save_performance_midi", "save_performance_midi[part]", "save_performance_midi[merge]", "ppart.note_array", "compute_pianoroll[ppart]")
 
 
 def perf_entry_points():
@@ -719,8 +727,11 @@ def spaces(tier, seed):
     bases = PAIR_BASES if tier == "thorough" else [PAIR_BASES[0], PAIR_BASES[1 + seed % (len(PAIR_BASES) - 1)]]
     sp.append(Space("score-ordered-pairs", [dict(kind="score", feats=f, seq=[a, b]) for f in bases for a in names_s for b in names_s if a != b], True,
                     "%d feature-rich scores x all ordered pairs of distinct entry points (%d)" % (len(bases), len(names_s))))
-    sp.append(Space("perf-sequences", [dict(kind="perf", variant=v, seq=[a, b]) for v in ("plain", "pedal", "two", "two_rev", "stale") for a in names_p for b in names_p], True,
-                    "5 performances (plain, pedal, two parts, two parts with descending track attributes, pedal and a note edit added after construction) x all ordered pairs (incl. equal) of %d entry points" % len(names_p)))
+    names_t = [n for n in names_p if n in PERF_SEQUENCE_EPS]
+    sp.append(Space("perf-sequences", [dict(kind="perf", variant=v, seq=[a, b]) for v in ("plain", "pedal", "two", "two_rev", "stale") for a in names_p for b in names_p]
+                    + [dict(kind="perf", variant="tuple", seq=[a, b]) for a in names_t for b in names_t], True,
+                    "5 performances (plain, pedal, two parts, two parts with descending track attributes, pedal and a note edit added after construction; "
+                    "and a plain tuple of two independently built parts that share track 0, for the entry points that take a sequence of parts) x all ordered pairs (incl. equal) of %d entry points" % len(names_p)))
     mf = [["tie"], ["tie", "grace", "pickup"], ["staff2", "dirs"], ["marks"], ["marks", "bare"], ["marks", "bare", "grace"]]
     PAIR_BASES[0].count("open_dirs") or PAIR_BASES[0].append("open_dirs")
     sp.append(Space("match-sequences", [dict(kind="match", feats=f, variant=v, seq=[a, b]) for f in mf for v in ("plain", "pedal", "stale") for a in names_m for b in names_m], True,
